@@ -113,7 +113,7 @@ def main():
                  'each mask pixel is compared with the independently computed overlap area (1e-8), range, exact 1/0 for covered/uncovered pixels, '
                  'sum = analytic area; subpixel masks converge to the exact one within the boundary-length bound')
     sizes = [1e-3, 3e-3, 1e-2, 0.03, 0.1, 0.3, 1.0, 2.5, 7.7, 23.0, 61.0, 250.0, 1000.0]
-    limit = 25 if tier == 'quick' else 1100
+    limit = 8 if tier == 'quick' else 1100
     offsets = [(0.0, 0.0), (0.5, 0.5), (0.5, 0.0), (0.0, 0.5)] + [(rng.random(), rng.random()) for _ in range(4 if tier == 'quick' else 40)]
     n = 0
     for r in sizes:
